@@ -1,7 +1,7 @@
 #!/bin/bash
 # runs every claimed check of the given tier sequentially; prints one summary line per check
 tier=${1:-quick}
-cd /verif
+cd "$(dirname "$0")/.."
 for p in $(cat tools/claimed.txt); do
   out=$(./check.sh $p $tier 2>&1); rc=$?
   echo "$p rc=$rc $(echo "$out" | grep -c '^VIOLATION') violations, $(echo "$out" | grep -c '^KNOWN-FINDING') known | $(echo "$out" | tail -1 | cut -c1-230)"
